@@ -1,8 +1,8 @@
 SPECIFICATION Spec
 CONSTANTS
-  Prog <- P_S2RR
-  Procs = {1,2,3,4}
-  Fixed = FALSE
+  Prog <- P_SRCT
+  Procs = {1,2,3}
+  Fixed = TRUE
   EnableFirst = TRUE
   Mon = TRUE
 INVARIANTS LinStrict LinWeak QuiescentAgrees AtMostOnceI NoInventionI NoLostWakeupQ ParkedRegistered WaitersSane
